@@ -143,7 +143,8 @@ def explore (cfg : Cfg) (scenario : String) : String :=
     let leak1 := term1.any (fun (s, _) => anySock s)
     -- phase 2: a second datagram of the same client; then Stop
     let p2 : Policy := { arrivals := 2, initOk := allOk, heldAt := none, dPacket := false, timer := never,
-                         stopCall := fun s => s.n ≥ 2 && s.rpc == .read && idleEstablished (s.ent 1) }
+                         stopCall := fun s => s.n ≥ 1 && s.rpc == .read &&
+                           (List.range s.n).all (fun i => idleEstablished (s.ent i) || (s.ent i).finished) }
     let s2 := run p2 term1
     let established := s2.any (fun (s, _) => s.n == 2 && s.table 0 == some 1 && idleEstablished (s.ent 1) && (s.ent 1).dl == .future)
     let dead2 := s2.any (fun (s, u) => s.spc == .idle && (succs cfg p2 s u).isEmpty && !(s.n == 2 && idleEstablished (s.ent 1)))
